@@ -181,6 +181,11 @@ def op_border(sim: Sim, a) -> str:
     for k in keys:
         edges[k] = val
     tm.stroke_seq += 1
+    for k in keys:
+        if kind == "h":
+            tm.row_stroke_seq[k[0]] = tm.row_stroke_seq[k[0] - 1] = tm.stroke_seq
+        else:
+            tm.col_stroke_seq[k[1]] = tm.col_stroke_seq[k[1] - 1] = tm.stroke_seq
     if sim.real:
         from numbers_parser import RGB, Border
 
@@ -258,11 +263,11 @@ def pos_class(tm, r: int, c: int) -> str:
 
 
 def _stroke_row(tm, r: int) -> bool:
-    return any(k[0] in (r, r + 1) for k in tm.hedge)
+    return tm.row_stroke_seq.get(r, 0) > tm.row_h_seq.get(r, 0)
 
 
 def _stroke_col(tm, c: int) -> bool:
-    return any(k[1] in (c, c + 1) for k in tm.vedge)
+    return tm.col_stroke_seq.get(c, 0) > tm.col_w_seq.get(c, 0)
 
 
 @op("observe")
